@@ -345,8 +345,19 @@ sx_parse_list(const char *s, const size_t n, const size_t i)
         rv.status = SXS_UNEXPECTED_END;
         return rv;
     }
+    /* A closing parenthesis ends this list. This has to be decided on the
+     * token itself: The value it produces is the same as the one of a nested
+     * "()", which is an element like any other. */
+    const size_t j = skip_ws(s, n, i);
+    if (j < n && looking_at(s, n, j) == LOOKING_AT_PAREN_CLOSE) {
+        struct sx_parse_result rv = SX_PARSE_RESULT_INIT;
+        rv.node = sx_make_empty_list();
+        rv.position = j + 1u;
+        return rv;
+    }
+
     struct sx_parse_result carres = sx_parse_(s, n, i);
-    if (result_is_empty_listp(&carres) || result_is_error(&carres)) {
+    if (result_is_error(&carres)) {
         return carres;
     }
 
@@ -371,6 +382,14 @@ sx_parse_(const char *s, const size_t n, const size_t i)
         /* The tokenizer ran into the end of the input without finding
          * anything, no matter where it started looking. */
         rv.status = SXS_UNEXPECTED_END;
+        return rv;
+    }
+    if (result_is_empty_listp(&rv)) {
+        /* The tokenizer returns the empty list for a closing parenthesis.
+         * Lists consume theirs in sx_parse_list(), so this one does not close
+         * anything. */
+        sx_destroy(&rv.node);
+        rv.status = SXS_UNKNOWN_INPUT;
         return rv;
     }
     return rv;
